@@ -42,7 +42,7 @@ func (World) Stub(string) []string {
 		"SimNet: per-request-index decisions (target peers, drop, duplicate, delay, late delivery) from (net seed, index); partitions, heals, context cancellation and disk faults at plan-given simulated times",
 		"Byzantine peers: harness generator (genuine, foreign, corrupted, re-encoded, random, short/long branch, degenerate, typed garbage, non-canonical encoding, unsolicited nodes; silence, non-batch bytes, empty batch)",
 		"disks: simkit.SimDisk (get_error / put_error on the destination); clock: testing/synctest bubble; intercepted-nodes cacher wrapped by a pass-through recorder for probes",
-		"accounts arm after the time limit: the network becomes perfect with one full honest peer ('rescue'), because SyncAccounts has no context to cancel",
+		"accounts arm after the time limit (SyncAccounts has no context to cancel): 'rescue' = perfect network, one full honest peer with the resolver's own prefetch budget, no disk faults, and the intercepted-nodes cacher behind the recorder is replaced by one of 1e6 entries; if SyncAccounts has still not returned 600 simulated seconds later every write to the destination disk is made to fail so that the syncers return an error",
 	}
 }
 
@@ -54,6 +54,7 @@ func (World) Assumptions(string) []string {
 		"liveness is a probe, not a verdict: fault-free arm (one full honest peer, no faults, hard cap >= 5, intercepted-nodes cacher >= 1000 entries / >= 1 MB, <= 60 leaves when the 1 s syncer runs with a hard cap below 100) counts faultfree_runs / faultfree_completed / no_completion_faultfree within 60 simulated seconds",
 		"probe request_larger_than_hard_cap approximates 'hard cap bound' from outside (a request carried more hashes than the cap); rerequested_after_cacher_loss = a hash already saved into the cacher is requested again while not on disk (evicted before use)",
 		"accounts arm: the set of data tries userAccountsSyncer syncs comes from GetAllLeavesOnChannel over the synced main trie; that API logs a storage read error and closes the channel, so after an injected get_error SyncAccounts can return nil without having started a data trie (observed; counted as probe accounts_data_trie_skipped_after_read_error). The statement is about a trie whose sync completed, so in runs where a get_error fired only the main trie is judged; without read errors every data trie named by an account leaf is judged as well",
+		"liveness is never judged: a sync that does not return within the limit is cancelled (plain arms) or rescued (accounts arm); a SyncAccounts that does not return even 600 s after the rescue began is counted as probe sync_never_returned_on_perfect_network and ended by failing writes (probe ended_by_failing_every_write; those injected failures are not counted as put_error faults); sync_unstoppable would mean even that did not end it. Seen before the rescue replaced the cacher: cacher capacity 1 + 1 s syncer + prefetching peer gains about one node per several rounds (every answer evicts all but its last node), which is slow, not hung",
 		"no torn writes / dirty crashes; the destination is never restarted during a sync",
 		"sensitivity (development time, scratch worktree, quick tier, all caught): doubleList syncer not storing leaves; extension node reporting no missing child; trieSyncer returning nil on ErrTimeIsOut; doubleList syncer returning nil on context cancel; branch loadChildren skipping child 16; hard-cap break dropping the node from the frontier; encodeNodeAndCommitToDB swallowing the Put error; getNodeFromStorage taking any cached node when the requested hash is absent; trieSyncer not storing extension nodes; node already in the DB assumed to have a complete sub-trie (needs pre-seed)",
 	}
